@@ -87,4 +87,23 @@ PROPS = {
         "rule": "hist: random histories (40-100 ops after each `H init`) on a real Whirlpool (fixed / dynamic / mixed tick arrays; Anchor or Pinocchio liquidity path per op; fee accumulators started anywhere in u128 incl. just below wrap-around); the whole state digest is compared with the Lean model after every op and the implementation-side oracles (hist_oracle.rs) run after every op; non-trivial = a successful op; distinct by hash of (op line, clock)",
         "trusted": ["pro-rata/never-inflated along histories is checked by the reward shadow ledger of the history harness; reward-vault balances are harness bookkeeping (no token program is executed)"],
     },
+    "C04": {
+        "lean_modules": ["WP.Props.C04"],
+        "lean_support": ["WP.Model.Access"],
+        "families": [("posauth", 20000, 200000)],
+        "rule": "posauth: every combination of (owner, delegate present/absent/which, delegated amount 0/1/2/5, token amount, authority key, signer flag) "
+                "on real spl-token account bytes through verify_position_authority, verify_position_authority_interface and pino_verify_position_authority "
+                "(the space has 1920 points; sampled with replacement far beyond that); non-trivial = an accepted combination; "
+                "the instruction tables (63 accounts structs, 6 Pinocchio prologues, handler guards, routing table, #[program] list) are regenerated and checked against the requirement tables by `decide`",
+        "trusted": ["semantics given to Anchor's `Signer`, `address =`, `has_one`, `constraint =` and to Pinocchio's next_signer/verify_address/verify_constraint (WP/Model/Access.lean); "
+                    "handlers are not executed (no SVM offline): a broken row is reported with the row as witness and no-failing-input-found"],
+    },
+    "C15": {
+        "lean_modules": ["WP.Props.C15"],
+        "lean_support": ["WP.Model.Access"],
+        "families": [("ldta", 0, 0), ("posauth", 5000, 50000)],
+        "rule": "ldta: all 64 combinations of (owner ok, writable, discriminator fixed/dynamic/other/short, whirlpool field ok, mutable load) through the Anchor and the "
+                "Pinocchio tick-array loaders (exhaustive); the slot table of the 15 fund-moving accounts structs and 6 Pinocchio prologues is regenerated and checked by `decide`",
+        "trusted": ["as C04; the sparse-swap builder's account checks (PDA, ownership) are part of C10's family; token-program-side checks (owner accounts) are Solana's"],
+    },
 }
